@@ -115,8 +115,6 @@ func c03Run(t *testing.T, ci any, trace bool) *verifsim.Result {
 	// returning bytes that do not match the CID (later, not at the time of the call).
 	runtime.VerifPools(true)
 	defer runtime.VerifPools(false)
-	runtime.GC()
-	runtime.GC()
 	return verifsim.Run(t, c.Cfg, trace, func(s *verifsim.Sim) {
 		ctx := context.Background()
 		// ---------- part A: validating blockstore over a corrupted datastore ----------
